@@ -317,7 +317,7 @@ def run(unit):
                             got = 'raised ' + type(e).__name__
                         exp = 'ok' if a & b & c else 'TypeError'
                         if got != exp:
-                            r.violation('occurrences of one reference in a predicate are not required to share a base type', {'op': 'expr-cast', 'node': 'predicate', 'a': _w(a), 'b': _w(b) + ' ' + _w(c)},
+                            r.violation('occurrences of one reference in a predicate are not required to share a base type', {'op': 'expr-cast', 'node': 'predicate', 'a': _w(a), 'b': _w(b) + _w(c)},
                                         f'fa used at {_w(a)}, {_w(b)}, {_w(c)}: expected {exp}, got {got}', size=len(a) + len(b) + len(c))
             lits = {'NUMBER': ('1', 1), 'BOOL': ('True', True), 'STRING': ('"a"', '"a"')}
             uses = {'NUMBER': lambda v: A.HplBinaryOperator('>', v, A.HplLiteral('0', 0)), 'BOOL': lambda v: A.HplUnaryOperator('not', v), 'STRING': lambda v: A.HplBinaryOperator('=', v, A.HplLiteral('"b"', '"b"'))}
